@@ -34,6 +34,7 @@ RULE = (
 RULE += (" " + 'Pipelines are also scoped to a log source that matches all or none of the rules, and the outer correlation rule may carry group-by and a condition field, which must be mapped like those of the referenced rules.')
 RULE += (" Referenced rules and the correlation rule carry optional fields lists; with a fields expression configured the fields slot must list them in reference order, de-duplicated, without group-by fields, after field mapping.")
 RULE += (" A third of the cases selects a non-default correlation method whose templates are the unmarked ones (every template of the default method carries a marker).")
+RULE += (" Aliases also occur without group-by (normalisation only).")
 ASSUMPTIONS = [
     "solo queries of referenced rules are computed by the same backend class on fresh objects (isolation, not semantics)",
     "the unit lengths s/m/h/d/w/M/y = 1/60/3600/86400/604800/2629746/31556952 seconds",
@@ -332,6 +333,8 @@ def cases(draw):
         c["group-by"] = draw(st.sampled_from([["user"], "user", ["user", "fa"], ["al", "user"], ["other"]]))
         if "al" in c["group-by"]:
             c["aliases"] = {"al": {r: draw(st.sampled_from(["user", "account", "x"])) for r in refs}}
+    if "group-by" not in c and draw(st.integers(0, 2)) == 0:  # aliases without grouping: normalisation only
+        c["aliases"] = {"al": {r: draw(st.sampled_from(["user", "account", "x"])) for r in refs}}
     if draw(st.booleans()):
         c["generate"] = draw(st.booleans())
     op = draw(st.sampled_from(list(OPS)))
